@@ -439,6 +439,7 @@ byte[] gba = [1, 0, 2];
 bool[] gfa = [true, false, true, true, false, false, true, false, true, true];
 const int K = 2;
 const byte KB = 1;
+const string KS = "klm";
 int idf(int v) { return v; }
 int two(int a, int b) { return a * 4 + b; }
 bool pf(int v) { return v > 1; }
@@ -448,7 +449,8 @@ byte bidf(byte v) { return v; }
 US_INT = [('lit', '1'), ('local', 'x'), ('local2', 'n'), ('global', 'g'), ('const', 'K'), ('stack-elem', 'a[i]'), ('global-elem', 'ga[i]'), ('const-elem', 'gc[i]'), ('param-elem', 'xs[i]'),
           ('byte-local', 'b'), ('byte-global', 'gb'), ('byte-elem', 'gba[i]'), ('string-elem', 'gs[i]'), ('str-length', 'gs.length'), ('arr-length', 'a.length'), ('call', 'idf(x)'), ('call2', 'two(i, n)'),
           ('add', 'x + n'), ('mul-global', 'i * g'), ('neg', '-x'), ('mod', 'x % 3'), ('div', 'x / n'), ('narrow', '(x is byte)'), ('narrow-computed', '((x + 256) is byte)'), ('bool-int', '(t is int)'),
-          ('elem-of-elem', 'ga[gc[i]]'), ('call-elem', 'idf(a[i])'), ('spec', '(idf(x) ?? n)'), ('const-byte', 'KB'), ('byte-call', 'bidf(b)')]
+          ('elem-of-elem', 'ga[gc[i]]'), ('call-elem', 'idf(a[i])'), ('spec', '(idf(x) ?? n)'), ('const-byte', 'KB'), ('byte-call', 'bidf(b)'),
+          ('literal-string-elem', '"abc"[i]'), ('const-string-elem', 'KS[i]'), ('global-string-length', 'KS.length')]
 US_BOOL = [('lit', 'true'), ('local', 't'), ('global', 'gf'), ('elem', 'gfa[i]'), ('stack-elem', 'fa[i]'), ('lt', 'x < n'), ('eq', 'x == n'), ('ge-const', 'x >= -1'), ('not', 'not t'), ('not-cmp', 'not (x < n)'),
            ('and', 't and x > 0'), ('or', 't or x > 0'), ('call', 'pf(x)'), ('int-bool', '(x is bool)'), ('str-bool', '(gs is bool)'), ('byte-bool', '(b is bool)'), ('and-or', 'x < n and n < 3 or t'),
            ('not-and', 'not (t and x > 0)'), ('eq-bool', 't == gf'), ('spec', '(pf(x) ?? t)')]
@@ -467,6 +469,7 @@ US_INT_SITES = [
     ('literal-elem', 'int[] q = [1, {e}, 3]; sleep(q[1]); sleep(q[2]);'),
     ('narrow-init', 'byte nb = ({e}) is byte; write(nb); byte[] q = [({e}) is byte, 9]; write(q);'),
     ('arith-operand', 'sleep({e} + g); sleep(g - {e}); sleep({e} * {e});'),
+    ('computed-left', "sleep((x + 1) + {e}); sleep((x * 2) - {e}); if ((n + 1) < {e}) {{ write('l'); }} sleep(idf(x) * {e});"),
     ('cmp-branch', "if ({e} < n) {{ write('l'); }} else {{ write('g'); }} if (n == {e}) {{ write('e'); }}"),
     ('spec-operand', 'sleep({e} ?? n); sleep(idf(n) ?? {e});'),
     ('return', 'sleep(ret(x, n, i));'),
@@ -493,7 +496,7 @@ def usesite_matrix():
 
     def mk(name, kinds, sites, eb):
         for (kn, e), (sn, site) in itertools.product(kinds, sites):
-            if sn == 'spec-operand' and ('??' in e or kn in ('byte-local', 'byte-global', 'byte-elem', 'string-elem', 'narrow', 'narrow-computed', 'const-byte', 'byte-call')):
+            if sn == 'spec-operand' and ('??' in e or kn in ('byte-local', 'byte-global', 'byte-elem', 'string-elem', 'narrow', 'narrow-computed', 'const-byte', 'byte-call', 'literal-string-elem', 'const-string-elem')):
                 continue        # nested speculation / operands of different types are rejected by the front end
             if sn.startswith('defeat-') and '??' in e:
                 continue        # no speculation inside a try body
@@ -680,6 +683,19 @@ def time_enumerated(tier='quick'):
     T('handler-nest-three-deep', "try { !truth_is_defeat(x > 0); write('b'); } stop { write('1'); try { !d0(y); write('B'); } stop { write('2'); try { !truth_is_defeat(x > y); write('C'); } stop { write('3'); } write('j'); } write('i'); } "
       "try { write('t'); !d1(x); write('n'); } undo { write('u'); } try { write('T'); !d0(y); write('N'); } stop { write('S'); } write('.');")
     T('handler-nest-in-loop', "for (int k = 0; k < 2; k += 1) { try { !truth_is_defeat(x > k); write('b'); } stop { write('h'); try { !d0(y + k); write('B'); } stop { write('H'); } } try { write('t'); !d0(x + k); write('n'); } undo { write('u'); } } write('.');")
+    # several try/stop blocks in one function where the lexically first one is skipped at run time (in a false branch, a loop that
+    # runs zero times, or after a you-call), and a later one is defeated: the handler must restore the frame of *this* activation
+    T('first-try-skipped-if', "sleep(@cl(x)); sleep(@cl(y)); write('.');",
+      extra="empty !dd(int v) { int[] pad = [v, v]; !truth_is_defeat(pad[1] > 0); }\nint @cl(int n) { int keep = n * 3; if (n > 2) { try { !dd(n - 5); keep += 1; } stop { write('1'); keep += 10; } } "
+            "try { !dd(n); keep += 2; } stop { write('2'); keep += 20; } return keep; }\n")
+    T('first-try-skipped-loop', "sleep(@cl(x % 3, y)); write('.');",
+      extra="empty !dd(int v) { int[] pad = [v, v]; !truth_is_defeat(pad[1] > 0); }\nempty @sub(int v) { try { !dd(v); write('o'); } stop { write('O'); } }\n"
+            "int @cl(int n, int m) { int keep = m * 3; for (int i = 0; i < n; i += 1) { try { !dd(m - i); keep += 1; } stop { write('1'); keep += 10; } @sub(i); } try { !dd(m); keep += 2; } stop { write('2'); keep += 20; } return keep; }\n")
+    T('first-try-skipped-return-value', "sleep(@cl(x, y) + 1); sleep(@cl(y, x) * 2); write('.');",
+      extra="int !dv2(int v) { !truth_is_defeat(v > 3); return v * 2; }\nint @cl(int a, int b) { if (a > b) { try { return !dv2(a); } stop { write('1'); } } try { return !dv2(b) + a; } stop { write('2'); } return a - b; }\n")
+    # ?? whose value is consumed through every register route: returned, left / right operand of arithmetic and comparison, with a non-literal guess
+    T('spec-consumers', "sleep(@sr(x, y)); sleep((ord(x) ?? y) + g); sleep(g - (ord(y) ?? x)); if ((ord(x) ?? y) < y) { write('l'); } else { write('g'); } int[] a = [ord(x) ?? y, y ?? ord(x)]; sleep(a[0]); sleep(a[1]); sleep(g); write('.');",
+      extra="int @sr(int a, int b) { return ord(a) ?? b; }\n")
     return out
 
 
@@ -923,6 +939,11 @@ def cf_enumerated():
               "while (b < 2) { while (true) { b += 1; if (b > 0) { break; } } write('x'); } return 24;",
               "for (int i = 0; i < 2; i += 1) { for (int j = 0; j < 2; j += 1) { if (j == b) { continue; } if (i == a) { break; } write('a' + i * 2 + j); } write('|'); } return 26;",
               "while (true) { for (int i = 0; i < 2; i += 1) { if (i == a) { continue; } write('c'); } while (true) { b += 1; break; } if (b > 1) { return 27; } }"]
+    # loops whose condition is a constant false (literal, const variable, folded comparison): they complete at once, what follows is reachable,
+    # and a value-returning function ending in one must be rejected
+    for j, cond in enumerate(('false', 'TRACE', 'ROUNDS > 0', '0 is bool', 'not true')):
+        out.append(C('cf/const-false-loop-%d' % j, "const bool TRACE = false;\nconst int ROUNDS = 0;\nint f(int a, int b) { while (%s) { write('w'); a += 1; } for (int i = 0; %s; i += 1) { write('x'); } return a + 1; }\n"
+                     "empty g(int a) { write('g'); while (%s) { write('w'); } }\nempty sentinel() { write('#'); write('#'); all_is_broken(); }\nempty @is_you(int a, int b) { sleep(f(a, b)); g(a); write('.'); g(b); write('.'); }\n" % (cond, cond, cond)))
     for i, b in enumerate(nested):
         out.append(C('cf/nested-%d' % i, "int f(int a, int b) { b = b %% 3; %s }\nempty sentinel() { write('#'); write('#'); all_is_broken(); }\n"
                      "empty @is_you(int a, int b) { sleep(f(a, b)); write('.'); }\n" % b))
@@ -1014,6 +1035,10 @@ def fault_templates():
     T('nonlocal-preempt-other-before', "int plain(int v) { write('f'); return v + 1; }\nempty !baba(int v) { if (v > 0) { preempt { write('P'); } } write('b'); }\n"
       "empty @is_you(int a, int b) { try { write('t'); int r = plain(b); !baba(a); r = plain(r); !truth_is_defeat(r > 2); write('n'); } undo { write('u'); } write('q'); }\n")
     T('nonlocal-preempt-value', "int !val(int v) { preempt { return 1; } return v; }\nempty @is_you(int a, int b) { try { sleep(!val(a)); !truth_is_defeat(b > 0); write('n'); } undo { write('u'); } write('q'); }\n")
+    # a faulting operand next to a constant operand of a logical operator (the constant decides the value, the fault still happens)
+    for op, k in itertools.product(('and', 'or'), ('true', 'false', 'KT', 'not KT', 'VERBOSE')):
+        T('logic-const-%s-%s' % (op, k.replace(' ', '')), "const bool KT = true;\nconst bool VERBOSE = false;\nint[] ga = [1, 2, 3];\nempty @is_you(int a, int b) { write('p'); if ((10 / a == 1) %s %s) { write('t'); } else { write('f'); } "
+          "write('q'); bool r = (ga[b] > 1) %s %s; sleep(r is int); write('s'); if (%s %s (7 %% a == 1)) { write('T'); } write('u'); }\n" % (op, k, op, k, k, op))
     return out
 
 
@@ -1061,6 +1086,13 @@ def scope_templates():
     T('return-byte-expr-allocates', "write(f(x));", extra="byte last(const byte[] s) { return s[s.length - 1]; }\nbyte f(int v) { byte[] a = [v is byte, 'k']; return last(a) + last([1, 2, v is byte]) + a[0]; }\n")
     T('return-in-loop-allocates', "sleep(f(x));", extra="int s2(const int[] a) { return a[0] + a[1]; }\nint f(int v) { for (int i = 0; i < 3; i += 1) { int[] a = [i, v]; if (i == v % 3) { return s2(a) * 10 + s2([a[1], a[0] + 1]); } } return 0; }\n")
     T('rec-arrays', "sleep(rec(x % 3));", extra="int rec(int n) { int[] a = [n, n + 1]; if (n <= 0) { return a[1]; } int r = rec(n - 1); return r + a[0]; }\n")
+    # array literals used as temporaries (call argument, indexed literal) of every element type and of sizes that are not a multiple of the
+    # word size, evaluated repeatedly: the footprint of the loop must not depend on the number of iterations
+    T('literal-temporaries-in-loop', "int[] keep = [7, 8]; int s = 0; for (int i = 0; i < y % 4; i += 1) { show([x is byte, 'b', 'c']); s += [i, x, 3][i % 3]; s += ([true, false, i > 1][i % 3]) is int; show(['q']); s += cnt([i > 0, true, false, true, false]); } sleep(s); sleep(keep[0] + keep[1]);",
+      extra="empty show(const byte[] a) { write(a); }\nint cnt(const bool[] a) { int n = 0; for (int i = 0; i < a.length; i += 1) { if (a[i]) { n += 1; } } return n; }\n")
+    # the entry point called by the program itself: its returns release what the activation allocated
+    T('entry-point-recursion', "int[] mine = [n, 7, 9]; byte[] tag = ['e', n is byte]; if (n > 0 and n < 3) { @is_you(n - 1); int[] more = [n, n]; @is_you(0); sleep(more[1]); } if (n == 5) { return; } write(tag[0]); sleep(mine[0]);", sig='int n')
+    T('entry-point-loop-calls', "if (n == 0) { int[] a = [1, 2, 3]; if (a[0] == 1) { return; } } for (int i = 0; i < n % 4; i += 1) { byte[] b = ['k', i is byte]; @is_you(0); write(b[0]); } write('.');", sig='int n')
     return out
 
 
@@ -1116,6 +1148,8 @@ def alloc_templates():
     T('bool-assign-temps', 'bool[] a = [true, false, true]; a[1] = x > y; sleep(a[1] is int); sleep(a[2] is int);')
     T('recursion', 'sleep(r(x % 3));', extra='int r(int n) { int[] a = [n, 2]; if (n <= 0) { return a[1]; } return r(n - 1) + a[0]; }\n')
     T('defeat-funcs', "try { !d1(x); write('n'); } stop { write('s'); } int[] z = [1, 2]; sleep(z[1]);", extra="empty !d0(int a) { int[] t = [a, a]; !truth_is_defeat(t[1] > 2); }\nempty !d1(int a) { byte[] b = [1, 2, 3]; !d0(a + b[0]); }\n")
+    T('stop-loop-callee-array', "int ok = 0; for (int i = 0; i < 6; i += 1) { try { !probe(x + i); ok += 1; } stop { write('s'); } } sleep(ok); int[] z = [1, 2]; sleep(z[1]);",
+      extra="empty !probe(int v) { int[] scratch = [v, v, v, v]; !truth_is_defeat(scratch[3] % 2 == 0); }\n")
     T('global-index-store', "byte[] buf = ['a', 'b', 'c']; int canary = 12345; gi = 2; buf[gi] = nxtb(x); write(buf); sleep(canary);", extra="int gi = 0;\nbyte nxtb(int v) { gi = v; return 'n'; }\n")
     T('global-index-store-int', "int[] buf = [1, 2, 3]; gi = 1; buf[gi] = nxti(x); sleep(buf[1]); sleep(gi);", extra="int gi = 0;\nint nxti(int v) { gi = v; return 9; }\n")
     T('byte-deepest-slot', "byte[] a = [1, 2, 3]; byte b = x is byte; bool t = y > 0; write(b); sleep(t is int); write(a[2]);")
